@@ -89,6 +89,25 @@ let () =
              (optz (frame_header_size src)) gfh (optz (find_frame_compressed_size src))
              (optz (decompress_bound src)) (optz (decompression_margin src))
              (hex_of_z (find_decompressed_size src)) (hex_of_z (get_frame_content_size src))
+       | "UN" -> (* UN len cap *)
+           Printf.printf "U %s\n" (match no_compress_block (a 2) (a 1) with Some v -> "OK " ^ hex_of_z v | None -> "ERR")
+       | "UR" -> (* UR cap *)
+           Printf.printf "U %s\n" (match rle_compress_block (a 1) with Some v -> "OK " ^ hex_of_z v | None -> "ERR")
+       | "UL" -> (* UL cap *)
+           Printf.printf "U %s\n" (match write_last_empty_block (a 1) with Some v -> "OK " ^ hex_of_z v | None -> "ERR")
+       | "UF" -> (* UF cap hs *)
+           Printf.printf "U %s\n" (match write_frame_header (a 1) (a 2) with Some v -> "OK " ^ hex_of_z v | None -> "ERR")
+       | "US" -> (* US len cap variant *)
+           Printf.printf "U %s\n" (match write_skippable_frame (a 2) (a 1) (a 3) with Some v -> "OK " ^ hex_of_z v | None -> "ERR")
+       | "UD" -> (* UD cap hexbytes *)
+           let src = bytes_of_hex (if Array.length f > 2 then f.(2) else "") in
+           Printf.printf "U %s\n" (match read_skippable_frame (a 1) src with Some (n, _) -> "OK " ^ hex_of_z n | None -> "ERR")
+       | "UE" -> (* UE bs hs chk n1 n2 cap *)
+           let (w1, r) = raw_two_calls (a 1) (a 2) (f.(3) = "1") (a 4) (a 5) (a 6) in
+           Printf.printf "U %s %s\n" (optz w1)
+             (match r with CDone (w, _, _) -> "OK " ^ hex_of_z w | CTooSmall -> "ERR" | COverrun -> "OVERRUN" | CFuel -> "FUEL")
+       | "J" -> (* J n jobSize bsFirst bsNext hs chk *)
+           Printf.printf "J %s\n" (optz (mt_raw_frame (a 1) (a 2) (a 3) (a 4) (a 5) (f.(6) = "1")))
        | "" -> ()
        | _ -> Printf.printf "?\n");
     done
